@@ -86,6 +86,8 @@ pub struct Case {
     pub pod: bool,
     /// the consumed vector is built with `spare` elements of unused capacity (vec only)
     pub spare: usize,
+    /// threads whose operations run inside a destructor while the thread is unwinding from an unrelated panic
+    pub inpanic: Vec<usize>,
     pub threads: Vec<Vec<Op>>,
     pub owner: Owner,
     pub sched: Vec<usize>,
@@ -361,6 +363,7 @@ struct Partial {
     zst: bool,
     pod: bool,
     spare: usize,
+    inpanic: Vec<usize>,
     threads: Vec<Vec<Op>>,
     owner: Option<Owner>,
     sched: Option<Vec<usize>>,
@@ -417,6 +420,7 @@ fn finish(p: Partial) -> Result<Case, String> {
         droppanic: p.droppanic,
         zst: p.zst,
         pod: p.pod,
+        inpanic: p.inpanic,
         spare: p.spare,
         threads: p.threads,
         owner: p.owner.unwrap_or(Owner::Drop),
@@ -494,6 +498,11 @@ pub fn parse_cases(text: &str) -> Result<Vec<Case>, String> {
             }
             "pod" => {
                 p.pod = true;
+            }
+            "inpanic" => {
+                for t in &toks[1..] {
+                    p.inpanic.push(num::<usize>(t, "inpanic thread", ln)?);
+                }
             }
             "spare" => {
                 let k = toks
